@@ -88,7 +88,7 @@ def irset(r, toggle: bool = None, special: bool = None, density: float = None, l
     density = r.choice([1.0, 0.85, 0.6, 0.35]) if density is None else density
     rid = r.choice(SPECIAL_IDS if special else ORDINARY_IDS)
     modes = [m for m in MODE_PREFIX if r.random() < max(density, 0.5)] or ["COOL"]
-    lo = r.randrange(10, 22)
+    lo = r.randrange(10, 22) if r.random() < 0.8 else r.randrange(22, 38)
     hi = r.randrange(lo, 41)
     keys: List[str] = []
     for m in modes:
